@@ -642,7 +642,7 @@ func drawGenOpts(r *RNG) genOpts {
 		o.Org = pick(r, []int{0x7c00, 0xc200, 0x100, 0x8000, 0x280000})
 	}
 	o.NLabels = pick(r, []int{0, 2, 5, 12, 24, 30})
-	o.NStmts = pick(r, []int{3, 8, 20, 40, 80})
+	o.NStmts = pick(r, []int{3, 8, 20, 40, 80, 80})
 	o.NEqu = pick(r, []int{0, 0, 2, 6, 12})
 	if o.Coff {
 		o.NGlobal = pick(r, []int{0, 1, 4, 12, 24, 30})
